@@ -63,6 +63,16 @@ func init() {
 			return c.w.mod.OnChanOpenAck(ctx, ccv.ConsumerPortID, op.s("ch"), "channel-9", string(bz))
 		})
 	}
+	// cchanclose ch=   (core IBC marks the channel CLOSED: ChanCloseConfirm from the provider side)
+	extraConsOps["cchanclose"] = func(c *consRunner, op Op, extra *[]any) error {
+		r, ok := c.w.chk.rec(c.w.ctx, ccv.ConsumerPortID, op.s("ch"))
+		if !ok {
+			return fmt.Errorf("no channel")
+		}
+		r.State = int(channeltypes.CLOSED)
+		c.w.chk.setRec(c.w.ctx, ccv.ConsumerPortID, op.s("ch"), r)
+		return nil
+	}
 	// ccloseinit ch=
 	extraConsOps["ccloseinit"] = func(c *consRunner, op Op, extra *[]any) error {
 		return c.w.atomically(func(ctx sdk.Context) error { return c.w.mod.OnChanCloseInit(ctx, ccv.ConsumerPortID, op.s("ch")) })
